@@ -373,7 +373,13 @@ class Canon:
             f = fname(t[1])
             if f in ('pi', 'e', 'inf'):
                 return self.atom_rat(intern(('sym', f)))
-        return self.atom_rat(self.canon_atom(t))
+        a = self.canon_atom(t)
+        if a is t or a[0] == t[0] == 'call' and a[1] == fname(t[1]) == t[1]:
+            return self.atom_rat(a)
+        if a[0] in ('rat', 'num', 'bin', 'un', 'I') or (
+                self.atom_rewrite is not None and a[0] != t[0]):
+            return self.rat(a)
+        return self.atom_rat(a)
 
     def log_of(self, a):
         a = self.rnorm(a)
